@@ -30,13 +30,13 @@ def exact_power(case):
     return tot
 
 
-def make_case(rng, aligned, n_core_rings=1):
+def make_case(rng, aligned, n_core_rings=1, near=False):
     pos = gi.core_positions(n_core_rings)
     if n_core_rings > 1:
         pos = [p for p in pos if rng.random() < 0.5] or pos[:1]
     case = gi.random_case(rng, positions=pos, n_types=1, gap_model=rng.choice(['none', 'flow']),
                           length=round(rng.uniform(0.2, 0.6), 3), with_power=False, flow_range=(1.5, 6))
-    has_regions = rng.random() < 0.7
+    has_regions = rng.random() < 0.7 or near
     if has_regions:
         gi.add_axial_regions(rng, case, 't0', lower=rng.random() < 0.8, upper=rng.random() < 0.8)
     nt = rng.choice([1, 2, 3])
@@ -61,6 +61,20 @@ def make_case(rng, aligned, n_core_rings=1):
                 rows += gi.poly_rows(a, comp, zb, n, lambda k, i: [rng.uniform(1e3, 2e4) * sc] + [rng.uniform(-300, 300) * sc
                                                                                                    for _ in range(nt - 1)])
         case['power'] = dict(rows=rows, n_terms=nt, zbnds=zb, total_power=None, scaling=1.0)
+    if has_regions and not aligned and (near or rng.random() < 0.2):
+        # a bundle bound a fraction of a millimetre away from a power-cell boundary: two planes closer than one step
+        regs = case['types']['t0']['AxialRegion']
+        zb = [z for z in case['power']['zbnds'][1:-1]]
+        if zb and regs:
+            reg = rng.choice(regs)
+            key = 'z_hi' if reg['name'] == 'lower' else 'z_lo'
+            cand = [z for z in zb if 0.05 * case['core']['length'] < z < 0.95 * case['core']['length']]
+            if cand:
+                znew = round(rng.choice(cand) + rng.choice([-1, 1]) * rng.uniform(1e-4, 9e-4), 6)
+                lo_ok = all(r['z_hi'] < znew for r in regs if r is not reg and r['name'] == 'lower')
+                hi_ok = all(r['z_lo'] > znew for r in regs if r is not reg and r['name'] == 'upper')
+                if lo_ok and hi_ok and 0 < znew < case['core']['length']:
+                    reg[key] = znew
     if rng.random() < 0.5:
         case['power']['total_power'] = round(rng.uniform(1e4, 5e5), 1)
     if rng.random() < 0.4:
@@ -73,8 +87,11 @@ def make_case(rng, aligned, n_core_rings=1):
 def oracle(ctx, rng, n):
     reqs, expect = [], []
     for ci in range(n):
-        aligned = rng.random() < 0.4
-        case = make_case(rng, aligned, rng.choice([1, 1, 2]))
+        near = ci % 3 == 1
+        aligned = rng.random() < 0.4 and not near
+        case = make_case(rng, aligned, rng.choice([1, 1, 2]), near=near)
+        if near:
+            ctx.count("near_plane_cases")
         d = str(ctx.work / ("p%d" % ci))
         try:
             inp, r = gi.build_reactor(case, d)
